@@ -450,6 +450,30 @@ func (g *Gen) intCall(d int) *X {
 		}},
 		{1, func() *X { return Call("BM", TInt, g.Expr(TInt, d-1)) }},
 		{1, func() *X { return Call("Len2", TInt, g.Expr(TInts, d-1)) }},
+		{2, func() *X {
+			// nil is a legal argument for interface / pointer parameters, in any position
+			arg := func(l string) *X {
+				switch g.pick(5, l) {
+				case 0, 1:
+					return LitNil()
+				case 2:
+					return Var("P", TPElem)
+				case 3:
+					return g.Expr(TInt, d-1)
+				}
+				return g.str(d - 1)
+			}
+			return Call("NilMask", TInt, arg("nm0"), arg("nm1"), arg("nm2"))
+		}},
+		{1, func() *X {
+			os := []*X{LitNil(), Var("P", TPElem), Field(Var("N", TNested), "PE", TPElem)}
+			if g.Excl["nil-to-pointer-param"] {
+				os = os[1:] // known finding F30: a literal nil for a pointer parameter fails inside reflect.Call
+				g.Excluded["nil-to-pointer-param"]++
+			}
+			o := os[g.pick(len(os), "orv")]
+			return &X{K: "method", Name: "OrV", A: []*X{g.elemRecv(d - 1), o, g.Expr(TInt, d-1)}, Ty: TInt}
+		}},
 		{2, func() *X { return g.elemMethod(TInt, d) }},
 	}
 	if g.Calls {
@@ -1126,7 +1150,17 @@ func (g *Gen) structExpr(ty *Ty, d int) *X {
 		}
 		return Idx(Var("Es", TElems), g.indexExpr(d-1), ty)
 	case ty.Eq(TPElem):
-		switch g.pick(4, "pelem") {
+		switch g.pick(5, "pelem") {
+		case 4:
+			arg := func(l string) *X {
+				as := []*X{LitNil(), Var("P", ty), Field(Var("N", TNested), "PE", ty)}
+				if g.Excl["nil-to-pointer-param"] {
+					as = as[1:]
+					g.Excluded["nil-to-pointer-param"]++
+				}
+				return as[g.pick(len(as), l)]
+			}
+			return Call("PickE", ty, arg("pe0"), arg("pe1"))
 		case 0:
 			return Var("P", ty)
 		case 1:
